@@ -5,8 +5,12 @@ import runner, coreutil, gen_core
 from coreutil import Scenario, events, reads, toks
 from refcodec import server_frame, close_payload
 
-TRUSTED = ['correspondence: harness/world.py (fault injection at the simulated socket/selector)', 'per-address connect logic is checked on the real _connect_sock with a simulated socket module (harness/props/c09.py)']
-ASSUMPTIONS = ['faults: EOF, socket.error, arbitrary exception at recv; socket.error at sendall; OSError at selector.wait; connect outcomes per resolved address']
+TRUSTED = ['correspondence: harness/world.py (fault injection at the simulated socket/selector)',
+           'per-address connect loop: the real _connect_sock is driven with a simulated socket module (harness/props/c09.py) and compared call-by-call with lean/Lomond/Model/Connect.lean for every outcome combination of up to 3 addresses',
+           'the core model treats `_connect` as one outcome (cfg.connect); the link between Connect.connectSock = fail and cfg.connect = socketFail is by inspection of session.py (_connect_sock raises _SocketFail, run() catches it)']
+ASSUMPTIONS = ['faults: EOF, socket.error, arbitrary exception at recv; socket.error at sendall; OSError at selector.wait; connect outcomes per resolved address',
+               'theorems are about Lomond.Core.run/runAll for every cfg (connect outcome, per-write failure function), every application and every environment script; `scriptEnd` (environment script exhausted while the loop is still running) is a model artefact, excluded by ending every generated script with a transport-ending step',
+               'an application that abandons the iterator (GeneratorExit) is the only other way out of run(); the no-escape theorem says so explicitly']
 
 
 def base_scenarios(rng, n):
@@ -33,7 +37,14 @@ def faulted(sc, rng, tier):
     for k in range(0, 8):
         s = coreutil.scenario_from_json(js); s.wfail = {k}; out.append((s, 'write#%d' % k))
     data = stream_of(sc)
-    offs = range(len(data) + 1) if (tier == 'thorough' or len(data) < 200) else sorted(set(rng.sample(range(len(data) + 1), 120)) | {0, len(data)})
+    if len(data) < 200 or (tier == 'thorough' and len(data) <= 2000):
+        offs = range(len(data) + 1)
+    elif tier == 'thorough':
+        # very long streams (64 KiB frames): every offset of the first 600 and the last 300 bytes, 600 sampled in between
+        n = len(data)
+        offs = sorted(set(range(0, 601)) | set(range(n - 300, n + 1)) | set(rng.sample(range(n + 1), 600)))
+    else:
+        offs = sorted(set(rng.sample(range(len(data) + 1), 120)) | {0, len(data)})
     for off in offs:
         for kind in ('eof', 'sockerr', 'othererr'):
             s = coreutil.scenario_from_json(js)
@@ -147,22 +158,36 @@ def real_connect_cases(_):
 def explore(res, tier, seed, model_ok=True):
     rng = random.Random(seed)
     nbase = 6 if tier == 'quick' else 40
-    res.rule = ('%d base scenarios x one fault injected at every individual socket operation: connect (2 kinds), each of the first 8 sendall calls, recv at every byte offset of the server stream (EOF / socket.error / other exception), '
+    res.rule = ('%d base scenarios x one fault injected at every individual socket operation: connect (2 kinds), each of the first 8 sendall calls, recv at every byte offset of the server stream (EOF / socket.error / other exception; streams over 2000 bytes: every offset of the first 600 and last 300 bytes plus 600 sampled), '
                 'selector.wait at every cycle; plus every outcome combination of up to 3 resolved addresses on the real _connect_sock; non-trivial = every faulted run; distinct by operation line') % nbase
-    scs, meta = [], []
+    first_pairs = None
+    # one batch per base scenario, so that memory stays bounded in the thorough tier
     for b in base_scenarios(rng, nbase):
+        scs, meta = [], []
         for s, what in faulted(b, rng, tier):
             scs.append(s); meta.append(what)
-    pairs = coreutil.run_pairs(scs, model_ok)
-    for (js, line, real, model), what in zip(pairs, meta):
-        if isinstance(real, dict):
-            res.crashes.append(real); continue
-        res.case(line)
-        res.count(what.split('@')[0].split('#')[0].split(':')[0])
-        judge(res, js, line, real, what)
-    coreutil.check_corr(res, pairs)
-    # connect loop
+        pairs = coreutil.run_pairs(scs, model_ok)
+        for (js, line, real, model), what in zip(pairs, meta):
+            if isinstance(real, dict):
+                res.crashes.append(real); continue
+            res.case(line)
+            res.count(what.split('@')[0].split('#')[0].split(':')[0])
+            judge(res, js, line, real, what)
+        coreutil.check_corr(res, pairs)
+        if first_pairs is None:
+            first_pairs = [pairs[0], pairs[len(pairs) // 2]]
+        del pairs, scs
+    # connect loop: the real _connect_sock against the Lean model (Model/Connect.lean), then the oracle
     cases = real_connect_cases(None)
+    if model_ok:
+        tok = {'ok': 'ok', 'sockcreate-fail': 'sfail', 'connect-fail': 'cfail'}
+        lines = ['connect ' + ('-' if n == 0 else ','.join(tok[c] for c in combo)) for n, combo, _, _ in cases]
+        outs = runner.model_run(lines)
+        for (n, combo, r, log), line, out in zip(cases, lines, outs):
+            real = (r + ' ' + ','.join(log)).strip()
+            res.traces_validated += 1
+            if real != out.strip():
+                res.diffs.append(dict(input=line, real=real, model=out))
     for n, combo, r, log in cases:
         res.case(('connect', n, combo))
         first_ok = next((i for i, c in enumerate(combo) if c == 'ok'), None)
@@ -178,7 +203,7 @@ def explore(res, tier, seed, model_ok=True):
             if c == 'connect-fail' and 'close%d' % i not in log:
                 res.failures.append(dict(cls='connect-loop', what='socket of failed address %d not closed' % i, input=[n, list(combo)], observed=log))
     res.exhaustive['connect_outcome_combinations_le_3_addresses'] = len(cases)
-    res.samples += [pairs[0][1][-200:], pairs[len(pairs) // 2][1][-200:], 'connect outcomes (ok, connect-fail, sockcreate-fail)^n, n<=3']
+    res.samples += [first_pairs[0][1][-200:], first_pairs[1][1][-200:], 'connect outcomes (ok, connect-fail, sockcreate-fail)^n, n<=3']
 
 
 def replay(rp):
